@@ -1,3 +1,39 @@
 """C05: check configuration (PROP) and MANIFEST texts (TEXT)."""
-PROP = {'n_quick': 200, 'n_thorough': 2500, 'audit': 4, 'audit_maxlen': 6000, 'rule': 'TODO', 'trusted': [], 'assumes': []}
-TEXT = {'text': 'TODO', 'design_ref': 'DESIGN.md section 6, C05', 'note': 'TODO', 'technique': 'TODO'}
+PROP = {'n_quick': 260,
+ 'n_thorough': 3000,
+ 'audit': 4,
+ 'audit_maxlen': 6000,
+ 'rule': 'two streams: (i) `tamper`: explicit transactions over the C04 shape lattice blinded by the real crate under a seeded RNG, then ONE tamper of the '
+         "property's list applied to the real structures — explicit amount/asset, replaced or exchanged value/asset commitment, removed/exchanged/corrupted "
+         'range or surjection proof, script of a blinded output, issuance amount, spent output with different amount/asset — at every applicable position '
+         '(thorough) or one position per class and transaction (quick); (ii) `explicit`: all-explicit transactions, balanced / unbalanced in an input or '
+         'output / asset changed / zero amount on OP_RETURN, on the fee, on a spendable script / wrong number of spent outputs, plus explicit '
+         'transactions over confidential spent outputs; distinct = (transaction, tamper) text; non-trivial = the tamper changed the transaction (all do)',
+ 'trusted': ['IDEAL-COMMITMENT MODEL as for C04 (partial w.r.t. cryptography): formal commitments over independent generators; ideal range/surjection proofs '
+             'whose soundness and binding are built in (a proof verifies iff intact, presented with exactly its statement, with a correct witness)',
+             "a tamper is applied by the harness to the real transaction and, symbolically, by the model (Model/Tamper.v `apply`) to its opened form; "
+             '`corrupt` = one flipped byte that still parses (real) / the intact flag cleared (model)',
+             'asset ids are numbers; issuance ids are read from the case (C11)'],
+ 'assumes': ['C05_tamper and C05_sound are about transactions whose spent outputs are opened (`opens`: H_a + abf*G generators, explicit issuances) — '
+             'the transactions C04 produces; confidential issuance amounts are outside',
+             'a spent-asset change is only claimed to be rejected when the function reads the asset (some output has a surjection proof, or the spent '
+             'output is fully explicit); a spent output differing only in script or nonce is not a different spent output for this function',
+             'exchanging two proofs of the SAME statement is not a change']}
+
+TEXT = {'text': 'Kernel-checked theorems in the ideal-commitment model (level: proof in the ideal model, partial w.r.t. cryptography), for all numbers of '
+         'inputs/outputs/assets: acceptance by verify_tx_amt_proofs implies that the outputs have openings with amounts < 2^64 that balance per asset as '
+         'INTEGERS against the opened inputs and issuances, and that every confidential output carries range and surjection proofs for exactly that '
+         'output (C05_sound); from any accepted transaction, every tamper class of the property (an inductive with apply/applicable/changes, 14 '
+         'constructors) at every applicable position is rejected (C05_tamper); an all-explicit transaction is accepted iff the spent list has the right '
+         'length, the zero-value rule holds and every asset balances — proved as the code behaves (no zero amounts at all, C05_explicit_iff_model) and '
+         "as the property states it outside the F13 class (C05_explicit_iff); a spent list of the wrong length is rejected as such (C05_len_mismatch). "
+         'Refutation C05_zero_opreturn_refuted (finding F13): a balanced explicit transaction with a zero-amount OP_RETURN/fee output is rejected. '
+         'Every run blinds generated transactions with the real crate, applies each tamper to the real structures, and the model must predict the verdict '
+         'AND the error variant (with index) of verify_tx_amt_proofs before and after.',
+ 'design_ref': 'DESIGN.md section 6, C05',
+ 'note': 'Trusted: Coq kernel; the ideal-commitment idealisation; hand-written model of verify_tx_amt_proofs (same checks, same order, same error variants, '
+         "including that an output's get_value_commit error is reported as SpentTxOutError) tied by per-run correspondence; harness. Known finding F13. "
+         "The repository's real-network vectors (tests/data, doc example) are not part of the stream: their openings are unknown, so the model cannot be "
+         'given their opened form (recorded in notes/C05.md).',
+ 'technique': 'Coq proof in an ideal-commitment model (coefficient calculus in the free module, binding of ideal proofs, one-position replacement lemmas for '
+              'the input and output loops) + per-run model/implementation correspondence on tampered real transactions'}
